@@ -1068,6 +1068,10 @@ def _fresh(case, mode, k=0):
     return f
 
 
+def _lazy_of(mode, k):
+    return repr((None, False, True)[k % 3]) if mode == "decoded" else ("raw" if mode == "raw" else "n/a")
+
+
 EDITS = ["head.lowestRecPPEM", "OS/2.usWeightClass", "hhea.lineGap", "post.underlineThickness", "name.add", "hmtx.advance",
          "cmap.add", "glyf.move", "CFF.underline", "maxp.noop", "flavor", "GSUB.flag", "GPOS.flag", "fvar.flags", "gasp.add",
          "hmtx.all", "glyf.far", "COLR.clip", "GSUB.subst", "GPOS.value", "GDEF.class"]
@@ -1449,8 +1453,9 @@ def run_history(case, ctx, rnd):
         tags = diff_tables(a, b)
         obs = _minimise(case, mode, k, ops, lambda x, ex: x != b)
         for tag in tags:
+            last_edit = next((o[1] for o in reversed(ops) if o[0] == "edit" and o[1] != "epoch" and tag.strip() in o[1]), None)
             _once(ctx, {"kind": "purity", "table": tag, "source": _cur["source"],
-                        "observation": obs[0][1] if len(obs) == 1 else "several"},
+                        "observation": obs[0][1] if len(obs) == 1 else "several", "lazy": _lazy_of(mode, k), "edit": last_edit},
                           "%s (%s): the final save differs in %r when observations are interleaved (%s)"
                           % (rel, mode, tag, ", ".join("%s(%s)" % (o[1], o[2]) for o in obs)[:200]),
                           {"font": rel, "mode": mode, "history": ops, "minimal_observations": obs, "size_with": len(a), "size_without": len(b),
